@@ -729,6 +729,16 @@ def _derived_sources_checked(idx, cls, f, arg) -> bool:
                     assigns = any(isinstance(n, ast.Assign) and any(is_self_attr(t, attr) for t in n.targets) for n in walk_local(m.node))
                     if assigns and _project_checked(m.node, key, _Prov(idx, c, m)):
                         ok = True
+        if not ok and nodes:
+            # the refusals may stand in a private method of the class that only checks and raises, called on every path
+            # to the occurrence: `self._check_definition_removable()` ... `resources.append(self.resource)`
+            def refusing_call(nd_):
+                st = nd_.ast
+                if nd_.kind != "stmt" or not (isinstance(st, ast.Expr) and isinstance(st.value, ast.Call) and is_self_attr(st.value.func) and not st.value.args):
+                    return False
+                h = idx.find_method(cls.qualname, st.value.func.attr)
+                return h is not None and _project_checked(h.node, key, _Prov(idx, cls, h))
+            ok = all(cfg.dominated_by(n.id, refusing_call) for n in nodes)
         if not ok:
             return False
     return True
@@ -745,6 +755,21 @@ def _site_ok(idx, cls, f, cfg, node, arg, pv) -> bool:
                     labels = pv.of(b)
                     if not (labels - {CALLER, PROJECT, DERIVED}) and _derived_sources_checked(idx, cls, f, b):
                         return True
+                    # ... compared with a PARAMETER of a private method: what every caller in the class hands in
+                    if isinstance(b, ast.Name) and cls is not None and f.name.startswith("_") and b.id in f.call_params() \
+                            and not (labels - {CALLER, PROJECT, DERIVED}):
+                        i = f.call_params().index(b.id)
+                        sites2 = []
+                        for q in idx.mro(cls.qualname) + idx.subclasses(cls.qualname):
+                            c2 = idx.classes.get(q)
+                            for m2 in (c2.methods.values() if c2 else []):
+                                for call in calls_in(m2.node):
+                                    if is_self_attr(call.func, f.name) and i < len(call.args):
+                                        actual = call.args[i]
+                                        pv2 = _Prov(idx, c2, m2)
+                                        sites2.append(not (pv2.of(actual) - {CALLER, PROJECT}) or _derived_sources_checked(idx, c2, m2, actual))
+                        if sites2 and all(sites2):
+                            return True
     return False
 
 
